@@ -518,6 +518,62 @@ def sync_expiry_behind_slow_action(res, mode, slow_ms, delay_ms, act_at_ms):
         it.stop()
 
 
+def restarted_timer_while_stale_expiry_pending(res, delay_ms, slow1_ms, slow2_ms):
+    """Sync engine, real threads.  The batch [SLOW1, RETRY, WORK] is queued; the timer armed on entry
+    expires during SLOW1, so its expiry is queued BEHIND RETRY and WORK.  RETRY re-enters the state
+    (restarting the delay), WORK is slow and the restarted timer expires during it - while the first,
+    now stale, expiry is still pending.  The stale one must be discarded and the restarted delay must
+    still fire: exactly one firing, after the restart."""
+    import threading
+    import time
+    log = []
+
+    def slow(ms):
+        def _a(i, c, e, a):
+            time.sleep(ms / 1e3)
+        return _a
+    cfg = {"id": "m", "initial": "waiting", "states": {
+        "waiting": {"entry": ["armed"], "after": {str(delay_ms): {"target": "expired", "actions": ["fired"]}},
+                    "on": {"SLOW1": {"actions": ["slow1"]}, "WORK": {"actions": ["slow2"]},
+                           "RETRY": {"target": "waiting", "reenter": True}}},
+        "expired": {}}}
+    m = create_machine(cfg, logic=MachineLogic(actions={
+        "slow1": slow(slow1_ms), "slow2": slow(slow2_ms),
+        "armed": lambda i, c, e, a: log.append(("armed", time.monotonic())),
+        "fired": lambda i, c, e, a: log.append(("fired", time.monotonic()))}))
+    it = SyncInterpreter(m).start()
+    try:
+        it.send_events(["SLOW1", "RETRY", "WORK"])
+        t_end = time.monotonic()
+        # the restarted delay ran out during WORK; allow a generous grace for the expiry to be handled
+        t0 = time.monotonic()
+        while time.monotonic() - t0 < 3.0 and "m.expired" not in config_of(it):
+            time.sleep(0.005)
+        cfgset = sorted(config_of(it))
+    finally:
+        it.stop()
+    res.evaluations += 1
+    res.count("stale-expiry-pending.scenarios")
+    res.hashes.add(h(["stale-pending", delay_ms, slow1_ms, slow2_ms]))
+    arms = [t for k, t in log if k == "armed"]
+    fires = [t for k, t in log if k == "fired"]
+    wit = {"delay_ms": delay_ms, "slow1_ms": slow1_ms, "slow2_ms": slow2_ms, "config": cfg,
+           "armed_at_ms": [round((t - arms[0]) * 1e3, 1) for t in arms],
+           "fired_at_ms": [round((t - arms[0]) * 1e3, 1) for t in fires], "configuration": cfgset}
+    if len(arms) != 2:
+        res.count("stale-expiry-pending.not-set-up")     # the first expiry came before RETRY was queued
+        return
+    if not fires or cfgset != ["m", "m.expired"]:
+        res.violation("C08:restarted-delay-lost-while-a-stale-expiry-was-pending/sync",
+                      "the state was re-entered (delay restarted) and stayed active for %.0f ms more; its "
+                      "delayed transition never fired (configuration %s)" % (
+                          (time.monotonic() - arms[1]) * 1e3, cfgset), wit)
+    elif len(fires) > 1 or fires[0] < arms[1] + delay_ms / 1e3 - 0.004:
+        res.violation("C08:stale-expiry-fired-for-the-restarted-activation/sync",
+                      "fired %s ms after the restart (delay %d ms), %d firing(s)" % (
+                          round((fires[0] - arms[1]) * 1e3, 1), delay_ms, len(fires)), wit)
+
+
 def _run_script(engine, machine, script, settle_ms):
     """script: [(at_ms, event)] ; returns after settle_ms beyond the last entry.  Sync: real time."""
     if engine == "sync":
@@ -681,6 +737,10 @@ def run_chunk(spec):
         if si % NCHUNKS == ci:
             wd.arm("slow-action scenario %r" % (sc,))
             sync_expiry_behind_slow_action(res, *sc)
+    for si, sc in enumerate([(20, 60, 90), (30, 80, 120), (15, 50, 70), (25, 70, 200)] * (1 if tier == "quick" else 4)):
+        if (si + 5) % NCHUNKS == ci:
+            wd.arm("stale expiry pending %r" % (sc,))
+            restarted_timer_while_stale_expiry_pending(res, *sc)
     kk = 0
     for engine in ("sync", "async"):
         for how in ("self", "up"):
@@ -706,7 +766,7 @@ def quota(counters, tier):
               "schedules.near-deadline", "schedules.with-leave-or-reentry", "wrapper.after_timer",
               "slow-action.scenarios.stop", "slow-action.scenarios.leave", "rolled-back-reentry.sync",
               "rolled-back-reentry.async", "prefix-named-sibling.sync", "prefix-named-sibling.async",
-              "computed-delay.checked",
+              "computed-delay.checked", "stale-expiry-pending.scenarios",
               "wrapper.schedule_state_tasks"):
         if counters.get(k, 0) == 0:
             out.append("monitor-never-reached:" + k)
